@@ -101,7 +101,7 @@ func runC01(r *R) {
 	}
 
 	// ---- R2
-	r.Rule("C01-R2", "handleGET: body write and Content-Length only under GetBlock err==nil, and the slice written is buf[:size] of that call", 2)
+	r.Rule("C01-R2", "handleGET: body write and Content-Length only under GetBlock err==nil, and the slice written is buf[:size] of that call", 1)
 	if fn := r.NeedFn("C01-R2", "(*"+ks+".router).handleGET"); fn != nil {
 		gbs := CallsIn(fn, ks+".GetBlock")
 		if len(gbs) != 1 {
@@ -192,7 +192,7 @@ func runC01(r *R) {
 	}
 
 	// ---- R4
-	r.Rule("C01-R4", "PutBlock: every volume access (CompareAndTouch, NextWritable, AllWritable, Put) is guarded by md5(block)==hash", 3)
+	r.Rule("C01-R4", "PutBlock: every volume access (CompareAndTouch, NextWritable, AllWritable, Put) is guarded by md5(block)==hash", 1)
 	if fn := r.NeedFn("C01-R4", ks+".PutBlock"); fn != nil {
 		var block, hash ssa.Value
 		for _, p := range fn.Params {
@@ -244,7 +244,7 @@ func runC01(r *R) {
 	}
 
 	// ---- R6
-	r.Rule("C01-R6", "CompareAndTouch: Touch and the success return only under Compare(...)==nil for the same mount iteration", 2)
+	r.Rule("C01-R6", "CompareAndTouch: Touch and the success return only under Compare(...)==nil for the same mount iteration", 1)
 	if fn := r.NeedFn("C01-R6", ks+".CompareAndTouch"); fn != nil {
 		cmps := CallsMatching(fn, func(n string, c *ssa.CallCommon) bool { return w.IsMethodOfIface(c, ks+".Volume", "Compare") })
 		if len(cmps) != 1 {
@@ -307,6 +307,9 @@ func runC01(r *R) {
 			gEOF, _ := Guard(fn, nil, ret, EqC("err==io.EOF", AnyV, GlobalVP("io.EOF")))
 			gLen, _ := Guard(fn, nil, ret, EqC("len(cmp)==0", lenVP, ConstIntVP(0)))
 			gMis, _ := Guard(fn, nil, ret, EqC("bytes.Compare(...)==0", CallVP("bytes.Compare"), ConstIntVP(0)))
+			if !gMis {
+				gMis, _ = Guard(fn, nil, ret, TrueC("bytes.Equal(...)", CallVP("bytes.Equal")))
+			}
 			gLong, _ := Guard(fn, nil, ret, LeC("n<=len(cmp)", AnyV, lenVP))
 			r.Check(gEOF && gLen && gMis && gLong, "C01-R7", fn, "return nil", ret.Pos(),
 				"guarded by err==io.EOF, len(cmp)==0, bytes.Compare==0, n<=len(cmp)", "nil return lacks one of: EOF, nothing left, bytes equal, not longer")
